@@ -12,10 +12,22 @@ import (
 
 // ---------- sync ----------
 
-type syncMap struct{ m *Map }
-type syncMutex struct{ locked bool }
-type syncWaitGroup struct{ n int }
-type syncOnce struct{ done bool }
+type syncMap struct {
+	m  *Map
+	vc vclock
+}
+type syncMutex struct {
+	locked bool
+	vc     vclock
+}
+type syncWaitGroup struct {
+	n  int
+	vc vclock
+}
+type syncOnce struct {
+	done bool
+	vc   vclock
+}
 
 func syncMapArg(v value) *syncMap {
 	p := v.(*value)
@@ -64,6 +76,7 @@ func init() {
 	reg("(*sync.Map).Load", func(fr *frame, a []value) value {
 		sched.visible()
 		m := syncMapArg(a[0])
+		raceAcquire(m.vc)
 		v, ok := m.m.lookup(a[1])
 		if !ok {
 			return tuple{iface{}, false}
@@ -72,25 +85,30 @@ func init() {
 	})
 	reg("(*sync.Map).Store", func(fr *frame, a []value) value {
 		sched.visible()
+		raceRelease(&syncMapArg(a[0]).vc)
 		syncMapArg(a[0]).m.insert(a[1], a[2])
 		return nil
 	})
 	reg("(*sync.Map).LoadOrStore", func(fr *frame, a []value) value {
 		sched.visible()
 		m := syncMapArg(a[0])
+		raceAcquire(m.vc)
 		if v, ok := m.m.lookup(a[1]); ok {
 			return tuple{v, true}
 		}
+		raceRelease(&m.vc)
 		m.m.insert(a[1], a[2])
 		return tuple{a[2], false}
 	})
 	reg("(*sync.Map).Delete", func(fr *frame, a []value) value {
 		sched.visible()
+		raceRelease(&syncMapArg(a[0]).vc)
 		syncMapArg(a[0]).m.delete(a[1])
 		return nil
 	})
 	reg("(*sync.Map).Range", func(fr *frame, a []value) value {
 		m := syncMapArg(a[0])
+		raceAcquire(m.vc)
 		for _, e := range orderForRange(m.m.live()) {
 			if e.deleted {
 				continue
@@ -107,6 +125,7 @@ func init() {
 		m := mu(a[0])
 		sched.block("mutex", func() bool { return !m.locked })
 		m.locked = true
+		raceAcquire(m.vc)
 		return nil
 	})
 	reg("(*sync.Mutex).Unlock", func(fr *frame, a []value) value {
@@ -114,6 +133,7 @@ func init() {
 		if !m.locked {
 			panic(abortPath{"deadlock", "fatal error: sync: unlock of unlocked mutex"})
 		}
+		raceRelease(&m.vc)
 		m.locked = false
 		return nil
 	})
@@ -128,6 +148,7 @@ func init() {
 	})
 	reg("(*sync.WaitGroup).Done", func(fr *frame, a []value) value {
 		w := wg(a[0])
+		raceRelease(&w.vc)
 		w.n--
 		if w.n < 0 {
 			panic(targetPanic{v: mkError("sync: negative WaitGroup counter")})
@@ -137,6 +158,7 @@ func init() {
 	reg("(*sync.WaitGroup).Wait", func(fr *frame, a []value) value {
 		w := wg(a[0])
 		sched.block("waitgroup", func() bool { return w.n == 0 })
+		raceAcquire(w.vc)
 		return nil
 	})
 	reg("(*sync.Once).Do", func(fr *frame, a []value) value {
@@ -144,6 +166,9 @@ func init() {
 		if !o.done {
 			o.done = true
 			call(fr.i, fr, fr.callpos, a[1], nil)
+			raceRelease(&o.vc)
+		} else {
+			raceAcquire(o.vc)
 		}
 		return nil
 	})
